@@ -1047,14 +1047,14 @@ def gen_C01(r, n, pool=None):
             if r.below(2):
                 return (fp.mant_exp(r, e) * r.choice([1.0, -1.0]), 0.0)
             return tf_in(r, e, e + 1)
-        bands = {2: (-545, -468), 3: (-365, -310), 4: (-275, -232), 5: (-220, -185)}
+        bands = {2: (-520, -478), 3: (-350, -318), 4: (-262, -238), 5: (-210, -190)}      # |x|^n between about 2^-1040 and 2^-955
         for e in ops:
             a = e.get('args') or []
             if e.get('const') or not a or a[0] != 'tf':
                 continue
-            for _ in range(max(3, per // 2)):
+            for _ in range(max(150, per) if (len(a) == 2 and a[1] in fp.INT_RANGES) else max(3, per // 2)):
                 if len(a) == 2 and a[1] in fp.INT_RANGES:
-                    nn = r.choice([2, 2, 2, 3, 4, 5])
+                    nn = r.choice([2, 2, 2, 2, 3, 3, 4, 5])
                     ln_ = '%s %s %d' % (e['name'], w2(edge_tf(*bands[nn])), nn)
                 elif a == ['tf']:
                     ln_ = '%s %s' % (e['name'], w2(edge_tf(*bands[r.choice([2, 2, 3])])))
@@ -1918,11 +1918,13 @@ def gen_C15(r, n, thorough=False):
         for fn in ('ln', 'log2', 'log10'):
             c.add('TwoFloat.%s %s' % (fn, w2(neg)), kind='dom', x=neg)
         c.add('TwoFloat.ln_1p %s' % w2(tf_of_fr(-1 - abs(Fr(r.rng(0, 2**30), 2**20)))), kind='dom')
-    one = (1.0, 0.0)
     for fn in ('ln', 'log2', 'log10'):
-        c.add('TwoFloat.%s %s' % (fn, w2(one)), kind='zero_at')
-        c.add('TwoFloat.%s %s' % (fn, w2((0.0, 0.0))), kind='dom')
-    c.add('TwoFloat.ln_1p %s' % w2((0.0, 0.0)), kind='zero_at')
+        for one in ((1.0, 0.0), (1.0, -0.0)):                   # both valid representations of 1
+            c.add('TwoFloat.%s %s' % (fn, w2(one)), kind='zero_at')
+        for z in [(0.0, 0.0), (0.0, -0.0), (-0.0, 0.0), (-0.0, -0.0)]:                                            # every zero bit pattern
+            c.add('TwoFloat.%s %s' % (fn, w2(z)), kind='dom')
+    for z in [(0.0, 0.0), (0.0, -0.0), (-0.0, 0.0), (-0.0, -0.0)]:
+        c.add('TwoFloat.ln_1p %s' % w2(z), kind='zero_at')
     c.add('TwoFloat.ln_1p %s' % w2((-1.0, 0.0)), kind='dom')
     return c
 
@@ -2014,7 +2016,7 @@ def gen_C16(r, n):
             add(tf_of_fr(q))
         else:
             add(log_uniform_tf(r, -5, 20))
-    for z in ((0.0, 0.0), (-0.0, 0.0)):
+    for z in ((0.0, 0.0), (-0.0, 0.0), (0.0, -0.0), (-0.0, -0.0)):
         for fn in ('sin', 'cos', 'tan'):
             c.add('TwoFloat.%s %s' % (fn, w2(z)), kind='zero_' + fn, x=z)
     # the double-double FRAC_PI_2 itself and its negation: reduced argument exactly 0 in an odd quadrant (known finding for tan)
@@ -2116,9 +2118,11 @@ def gen_C17(r, n):
     for zx in Z:
         for y in [(1.0, 0.0), (-1.0, 0.0), (7.25, -1e-18)]:
             c.add('TwoFloat.atan2 %s %s' % (w2(y), w2(zx)), kind='axis', y=y, x=zx)
-    c.add('TwoFloat.asin %s' % w2((0.0, 0.0)), kind='zero')
-    c.add('TwoFloat.atan %s' % w2((0.0, 0.0)), kind='zero')
+    for z in [(0.0, 0.0), (0.0, -0.0), (-0.0, 0.0), (-0.0, -0.0)]:
+        c.add('TwoFloat.asin %s' % w2(z), kind='zero')
+        c.add('TwoFloat.atan %s' % w2(z), kind='zero')
     c.add('TwoFloat.acos %s' % w2((1.0, 0.0)), kind='zero')
+    c.add('TwoFloat.acos %s' % w2((1.0, -0.0)), kind='zero')
     c.add('TwoFloat.asin %s' % w2((1.0, 0.0)), kind='pt', want='pi/2')
     c.add('TwoFloat.asin %s' % w2((-1.0, 0.0)), kind='pt', want='-pi/2')
     c.add('TwoFloat.acos %s' % w2((-1.0, 0.0)), kind='pt', want='pi')
@@ -2209,10 +2213,12 @@ def gen_C18(r, n):
         c.add('TwoFloat.atanh %s' % w2(log_uniform_tf(r, 1, 1000, sign=s)), kind='dom')
         big = tf_of_fr((1 + abs(Fr(r.rng(0, 2**30), 2 ** r.rng(0, 40)))) * s)
         c.add('TwoFloat.atanh %s' % w2(big), kind='dom', x=big)
-    for fn in ('sinh', 'tanh', 'asinh', 'atanh'):
-        c.add('TwoFloat.%s %s' % (fn, w2((0.0, 0.0))), kind='zero')
+    for z in [(0.0, 0.0), (0.0, -0.0), (-0.0, 0.0), (-0.0, -0.0)]:
+        for fn in ('sinh', 'tanh', 'asinh', 'atanh'):
+            c.add('TwoFloat.%s %s' % (fn, w2(z)), kind='zero')
+        c.add('TwoFloat.cosh %s' % w2(z), kind='one')
     c.add('TwoFloat.acosh %s' % w2((1.0, 0.0)), kind='zero')
-    c.add('TwoFloat.cosh %s' % w2((0.0, 0.0)), kind='one')
+    c.add('TwoFloat.acosh %s' % w2((1.0, -0.0)), kind='zero')
     return c
 
 def chk_C18(c, ans):
